@@ -58,7 +58,8 @@ def run_model(wd: Path, name: str, cfgs: str, *, K: int = 0, faults=(), cancels=
         args += ["-simulate", f"num={simulate['num']}", "-depth", str(simulate["depth"]), "-seed", str(seed)]
     r = run_tlc(mod, f"{mod}.cfg", wd=wd, workers=workers, args=args, timeout=timeout, specdir=wd, lib=SPEC, heap=heap)
     if r.error and not r.violated and "TLC-TIMEOUT" not in r.out:
-        raise MachineryError(f"TLC failed on {mod}: " + r.out[-2500:])
+        i = r.out.find("Error:")
+        raise MachineryError(f"TLC failed on {mod}: " + r.out[max(0, i - 200):i + 1500] + " ... " + r.out[-600:])
     return r
 
 
@@ -123,7 +124,8 @@ def run_solo(wd: Path, name: str, side: str, cfgs: str, cats, depth: int, props,
     (wd / f"{mod}.cfg").write_text("\n".join(cfg) + "\n")
     r = run_tlc(mod, f"{mod}.cfg", wd=wd, workers=workers, timeout=timeout, specdir=wd, lib=SPEC, heap=heap)
     if r.error and not r.violated and "TLC-TIMEOUT" not in r.out:
-        raise MachineryError(f"TLC failed on {mod}: " + r.out[-2500:])
+        i = r.out.find("Error:")
+        raise MachineryError(f"TLC failed on {mod}: " + r.out[max(0, i - 200):i + 1500] + " ... " + r.out[-600:])
     return r
 
 
